@@ -73,7 +73,7 @@ def g_parse(ctx, acc, name, module, cfg, kinds, timeout=1500, extra=(), profile=
     st, summ, fails = ctx.t.run_tlc_replay(name, module, cfg, ['replay-parse'], timeout, extra=extra, profile=profile, workers=workers)
     acc.add_stage(name, st, summ.get('vectors', 0), summ.get('samples', []),
                   {'expected_ok': summ.get('expected_ok'), 'expected_rej': summ.get('expected_rej'), 'unspec': summ.get('unspec')})
-    acc.distinct += summ.get('vectors', 0) - summ.get('unspec', 0)
+    acc.distinct += summ.get('distinct', 0)
     for f in keep(fails, kinds):
         f['stage'] = name
         acc.failures.append(f)
@@ -237,6 +237,170 @@ def c18(ctx):
                   ['oracle: Lexer.tla error facts (why/kw/w/fs); no wording is prescribed, the text must CONTAIN the keyword and the back-quoted word'])
 
 
+# =========================================================================== C19
+def g_tree(ctx, acc, name, module, cfgtext, timeout=1500, extra=(), workers=16):
+    st, summ, fails = ctx.t.run_tlc_replay(name, module, cfgtext, ['replay-tree'], timeout, extra=extra, workers=workers)
+    acc.add_stage(name, st, summ.get('vectors', 0), summ.get('samples', []))
+    acc.distinct += summ.get('distinct', 0)
+    for f in fails:
+        f['stage'] = name
+        acc.failures.append(f)
+
+
+def c19(ctx):
+    acc = Acc()
+    msize = pick(ctx, 4, 6)
+    g_tree(ctx, acc, 'c19trees', 'MC_C19', cfg(['MaxSize = %d' % msize, 'Mode = "trees"'], ['InvTwoDefs', 'EmitVector']), timeout=3000)
+    g_tree(ctx, acc, 'c19units', 'MC_C19', cfg(['MaxSize = 1', 'Mode = "units"'], ['InvUnits', 'EmitUnits']))
+    g_tree(ctx, acc, 'c19deep', 'MC_C19', cfg(['MaxSize = 40', 'Mode = "trees"'], ['InvTwoDefs', 'EmitVector']),
+           extra=['-simulate', 'num=%d' % pick(ctx, 100, 10000), '-depth', '13', '-seed', str(ctx.seed)], workers=1, timeout=3000)
+    return result('model_checking', acc, True,
+                  'trees grown from 22 leaves built with every public constructor (including Precedence, nested List, Global/Positional, DefaultPrint, empty and newline-in-the-middle format lists) by wrapping in Not/Precedence or combining with a seed tree under And/Or/List on either side, exhaustively up to %d nodes and by random growth to depth 12; unit tables and count*unit for 6 counts per unit including floor((2^64-1)/unit)' % msize,
+                  ['oracle: Ast.tla HasAction/NeedsFramed, each defined recursively and over the node set (InvTwoDefs); the replay builds the value through the public types (json_to_expr) and checks the projection round trip'])
+
+
+
+# =========================================================================== back end: translation validation
+SEM_KINDS = {'truth-mismatch', 'outs-mismatch', 'stop-mismatch', 'runtime-error', 'malformed-program', 'no-scan-call',
+             'compile-panic', 'render-panic', 'iomap-panic', 'policy-not-a-thunk', 'timeout'}
+ROUTE_KINDS = {'mode-mismatch', 'tag-sharing', 'tag-duplicate', 'iomap-targets-wrong', 'frame-garbage', 'tag-unknown',
+               'framed-write-elsewhere', 'outs-mismatch', 'compile-panic', 'iomap-panic', 'malformed-program', 'timeout'}
+REFUSE_KINDS = {'refused-supported', 'accepted-unsupported', 'error-does-not-name', 'compile-panic', 'timeout'}
+
+
+def sem_validate(ctx, acc, name, trace, kinds, timeout=3000, consts=''):
+    recs = [json.loads(l) for l in open(trace) if l.startswith('{')]
+    if not recs:
+        raise ctx.t.ToolError('no compiled programs recorded for ' + name)
+    st, verdicts = ctx.t.validate_trace(name, 'Trace_Sem', trace, timeout, consts=consts)
+    if len(verdicts) != len(recs):
+        raise ctx.t.ToolError('trace validation judged %d of %d records (%s)' % (len(verdicts), len(recs), name))
+    nfiles = sum(v.get('nfiles', 0) for v in verdicts)
+    ncompiled = sum(1 for r in recs if r['c']['st'] == 'ok')
+    samples = []
+    for r in recs[:2]:
+        samples.append({'tree': r['t'], 'compile': r['c']['st'],
+                        'program': ctx.t.text_of(r['c']['renders'][0].get('text', []))[:400] if r['c']['st'] == 'ok' else None})
+    acc.add_stage(name, st, len(recs), samples, {'programs_compiled': ncompiled, 'file_evaluations': nfiles})
+    acc.programs = getattr(acc, 'programs', 0) + ncompiled
+    acc.file_evals = getattr(acc, 'file_evals', 0) + nfiles
+    acc.distinct += len(set(json.dumps(r['t'], sort_keys=True) for r in recs))
+    for v in verdicts:
+        if 'unmodelled' in v['kinds']:
+            raise ctx.t.ToolError('program uses a construct outside the runtime model (record %d of %s): %s' % (v['idx'], name, v.get('info')))
+        if v['kinds']:
+            r = recs[v['idx'] - 1]
+            f = {'kinds': v['kinds'], 'tree': r['t'], 'o': r['o'], 'info': v.get('info'), 'file': v.get('file'), 'stage': name,
+                 'compile': r['c']['st'], 'text': ctx.t.text_of(r['c']['renders'][0].get('text', [])) if r['c']['st'] == 'ok' else ctx.t.text_of(r['c'].get('msg', []))}
+            acc.failures.extend(keep([f], kinds))
+    return verdicts
+
+
+def gt_sem(ctx, acc, name, family, maxsize, kinds, extra_rec=(), consts=''):
+    """TLC generates trees, the real code compiles them, TLC validates the programs"""
+    binp = ctx.t.build('dev')
+    import subprocess
+    trace = '%s/%s.ndjson' % (ctx.work, name)
+    cmd = ctx.t.tlc_cmd(name + '_gen', 'MC_Trees', cfg(['Family = "%s"' % family, 'MaxSize = %d' % maxsize], ['EmitTree']), workers=4)
+    tl = subprocess.Popen(cmd, cwd=ctx.t.SPEC, stdout=subprocess.PIPE, stderr=subprocess.STDOUT)
+    with open(trace, 'w') as f:
+        rp = subprocess.run([binp, 'compile-trees'] + list(extra_rec), stdin=tl.stdout, stdout=f, stderr=subprocess.PIPE, text=True, timeout=1800)
+    tl.wait()
+    if rp.returncode != 0 or 'Error' in rp.stderr:
+        raise ctx.t.ToolError('tree generation failed: ' + rp.stderr[-400:])
+    return sem_validate(ctx, acc, name, trace, kinds, consts=consts)
+
+
+def t_sem(ctx, acc, name, rec_args, kinds, consts=''):
+    trace = '%s/%s.ndjson' % (ctx.work, name)
+    wd = ctx.t.record(['record-compile'] + rec_args, trace)
+    for f in wd:
+        f['stage'] = name
+        acc.failures.append(f)
+    return sem_validate(ctx, acc, name, trace, kinds, consts=consts)
+
+
+def tv_result(acc, rule, assumptions, level='translation_validation'):
+    cov = acc.coverage(False, rule, {'programs': getattr(acc, 'programs', 0), 'disagreements_checked': getattr(acc, 'file_evals', 0)})
+    return {'level': level, 'coverage': cov, 'assumptions': ASSUME_COMMON + RUNTIME_ASSUMPTIONS + assumptions, 'failures': acc.failures}
+
+
+RUNTIME_ASSUMPTIONS = [
+    'runtime model (SchemeEval.tla) of code that is not in the repository: make-printer p m t = lock m; write s; write t; unlock m, returning true; display is one atomic write; call-with-name / call-with-relative-path apply their procedure to the field; round-up-power-of-2 x m rounds x up to a multiple of m; print-relative-path / print-file-fid write one line directly to standard output and return true; lipe-scan-break requests the end of the scan and returns true; format directives ~a ~d ~o ~f ~~ ~% as in Guile',
+    "find's rules as transcribed in FindSem.tla; paths follow the project's conventions (-print and %P relative path, %p absolute path, %h directory of the relative path); times print as epoch seconds; -perm /000 is not judged",
+]
+
+
+def c02(ctx):
+    acc = Acc()
+    gt_sem(ctx, acc, 'c02single', 'single', 1, SEM_KINDS)
+    gt_sem(ctx, acc, 'c02ops', 'ops', pick(ctx, 3, 4), SEM_KINDS)
+    t_sem(ctx, acc, 'c02rand', ['--count', str(pick(ctx, 250, 6000)), '--seed', str(ctx.seed), '--size', '12', '--no-direct'], SEM_KINDS)
+    return tv_result(acc, 'every supported primary alone with every generated member of its argument language plus 50 boundary-rich arguments; all trees up to %d nodes over 8 representative primaries and not/and/or/list; seeded random trees up to 12 nodes over the full supported vocabulary; each program executed on the directed files of Backend.tla DirectedFiles (3 base files + every leaf variant around each)' % pick(ctx, 3, 4), [])
+
+
+def c09(ctx):
+    acc = Acc()
+    gt_sem(ctx, acc, 'c09trees', 'c09', pick(ctx, 3, 5), SEM_KINDS)
+    t_sem(ctx, acc, 'c09rand', ['--count', str(pick(ctx, 300, 5000)), '--seed', str(ctx.seed), '--size', '10', '--profile', 'c09'], SEM_KINDS)
+    return tv_result(acc, 'all trees up to %d nodes over {true, false, a name test, print, quit, a file print} and not/and/or/list (exhaustive), plus seeded random trees up to 10 nodes over the same leaves; outputs on files that make the name test true and false compared with FindSem.tla SemTop (implicit -print iff no action node anywhere)' % pick(ctx, 3, 5), [])
+
+
+def c10(ctx):
+    acc = Acc()
+    gt_sem(ctx, acc, 'c10acts', 'acts', pick(ctx, 2, 3), ROUTE_KINDS)
+    t_sem(ctx, acc, 'c10rand', ['--count', str(pick(ctx, 200, 3000)), '--seed', str(ctx.seed), '--size', '9', '--profile', 'actions'], ROUTE_KINDS)
+    t_sem(ctx, acc, 'c10chain', ['--count', str(pick(ctx, 6, 40)), '--seed', str(ctx.seed), '--profile', 'chain', '--size', str(pick(ctx, 120, 300))], ROUTE_KINDS, consts='CONSTANT MaxFiles = 8\nCONSTANT Static = FALSE\n')
+    return tv_result(acc, 'all multisets of up to %d actions from 12 action kinds (stdout/file x newline/NUL/format, file names from a pool of 3, print-file-fid, quit) as AND chain, OR chain and mixed; seeded random operator trees rich in actions; chains with up to %d distinct destinations; checked: framed iff NeedsFramed, plain => no table, injective table equal to the required targets, stream decodes into frames whose routed records equal FindSem outputs' % (pick(ctx, 2, 3), pick(ctx, 120, 300)), [])
+
+
+def c12(ctx):
+    acc = Acc()
+    gt_sem(ctx, acc, 'c12unsup', 'unsup', 1, REFUSE_KINDS, consts='CONSTANT MaxFiles = 3\nCONSTANT Static = FALSE\n')
+    gt_sem(ctx, acc, 'c12single', 'single', 1, REFUSE_KINDS, consts='CONSTANT MaxFiles = 3\nCONSTANT Static = FALSE\n')
+    t_sem(ctx, acc, 'c12rand', ['--count', str(pick(ctx, 1500, 30000)), '--seed', str(ctx.seed), '--size', '9', '--unsupported', '--no-direct'], REFUSE_KINDS, consts='CONSTANT MaxFiles = 3\nCONSTANT Static = FALSE\n')
+    return tv_result(acc, 'every unsupported construct (13 tests, 3 actions, 7 format directives, the positional option, \\c) alone and in 6 positions (under not, dead AND/OR branches, beside actions); every supported primary alone (must compile); seeded random trees with 0..3 unsupported constructs; expected from the supported/unsupported partition of Vocab.tla/Format.tla; an accepted program is read and must have two top-level forms', ['the error must contain the variant name or the keyword of one offending construct'])
+
+def c07(ctx):
+    acc = Acc()
+    c07_front(ctx, acc)
+    # emitted constants: every numeric primary at its boundaries is executed on files at value-1, value, value+1
+    gt_sem(ctx, acc, 'c07sem', 'numbers', 1, SEM_KINDS | {'threads-mismatch'})
+    t_sem(ctx, acc, 'c07rand', ['--count', str(pick(ctx, 150, 3000)), '--seed', str(ctx.seed), '--size', '3', '--profile', 'numeric'], SEM_KINDS | {'threads-mismatch'})
+    r = result('model_checking', acc, True,
+               'front end: 28 numeric slots (ids, counts, thread count, sizes with every unit, times with every unit) x {0, 1, 2^31, 2^32, 2^63, 2^64, floor(2^64/unit) for every unit, a 40-digit number, seeded random values} each -1/0/+1 x sign x 0/1/5 leading zeros, expected verdict and value from BigNat; back end: numeric primaries at their field boundaries compiled and executed by the TLA+ runtime model on files whose field is value-1, value, value+1 (per unit), thread count literal compared with the option',
+               RUNTIME_ASSUMPTIONS + ['a size whose byte count exceeds 64 bits may be refused at parse time or at compile time'])
+    r['coverage']['programs'] = getattr(acc, 'programs', 0)
+    r['coverage']['disagreements_checked'] = getattr(acc, 'file_evals', 0)
+    return r
+
+
+def c08(ctx):
+    acc = Acc()
+    c08_front(ctx, acc)
+    gt_sem(ctx, acc, 'c08sem', 'perms', pick(ctx, 1, 2), SEM_KINDS)
+    r = result('model_checking', acc, True,
+               'all 4096 octal values in 3- and 4-digit spelling, all 315 single clauses, two-clause lists (%s), each under the three prefixes, expected mode and check kind from ArgLang.tla (chmod fold from mode 0; InvChmod/InvOracleAgrees checked in every state); seeded 1..4-clause lists validated by TLC; back end: octal values and single clauses x 3 prefixes compiled and executed on files whose mode is the expected mode, that mode with each of the 12 bits flipped, 0, 07777 and with other type bits' % pick(ctx, '1 in 16 stratified slice', 'all 99,225'),
+               RUNTIME_ASSUMPTIONS)
+    r['coverage']['programs'] = getattr(acc, 'programs', 0)
+    r['coverage']['disagreements_checked'] = getattr(acc, 'file_evals', 0)
+    return r
+
+
+def c13(ctx):
+    acc = Acc()
+    c13_front(ctx, acc)
+    t_sem(ctx, acc, 'c13threads', ['--count', str(pick(ctx, 200, 3000)), '--seed', str(ctx.seed), '--size', '4', '--profile', 'c09', '--threads'], {'threads-mismatch', 'compile-panic', 'malformed-program', 'no-scan-call'},
+          consts='CONSTANT MaxFiles = 1\nCONSTANT Static = FALSE\n')
+    r = result('model_checking', acc, True,
+               '6 base expressions x every insertion of up to %d options from {-depth, -threads N (5 values), -maxdepth N, -mindepth N} at every word boundary (front, middle, inside parentheses, after "!"), expected options/tree from Lexer.tla (InvOptions states the property on the specification result); seeded random inputs with options validated by TLC; back end: the thread argument of the emitted scan call equals the requested count or the runtime default expression' % pick(ctx, 2, 3),
+               RUNTIME_ASSUMPTIONS + ['-maxdepth/-mindepth: either honoured or the whole input is an error; both are accepted'])
+    r['coverage']['programs'] = getattr(acc, 'programs', 0)
+    r['coverage']['disagreements_checked'] = getattr(acc, 'file_evals', 0)
+    return r
+
+
+
 def front_only(fn, level, rule, assumptions):
     def run(ctx):
         acc = Acc()
@@ -245,7 +409,7 @@ def front_only(fn, level, rule, assumptions):
     return run
 
 
-REGISTRY = {'C01': c01, 'C14': c14, 'C05': c05, 'C06': c06, 'C18': c18}
+REGISTRY = {'C01': c01, 'C14': c14, 'C05': c05, 'C06': c06, 'C18': c18, 'C19': c19, 'C02': c02, 'C09': c09, 'C10': c10, 'C12': c12, 'C07': c07, 'C08': c08, 'C13': c13}
 
 
 
